@@ -13,6 +13,68 @@ HEADER = ''
 HEADER_FWD = ('From Coq Require Import ZArith QArith Qcanon List Arith Bool.\nFrom SSJ Require Import Model.HetLoop Model.HetPath.\nImport ListNotations.\nOpen Scope nat_scope.\n')
 
 
+HEADER_FWD2 = ('From Coq Require Import ZArith QArith Qcanon List Arith Bool.\nFrom SSJ Require Import Model.HetLoop Model.HetPath Model.HetPath2D.\nImport ListNotations.\nOpen Scope nat_scope.\n')
+
+
+def correspondence_2d(ctx, reps):
+    """forward pass and aggregation of the shipped TWO-ASSET household from its observed policies, date by date: D_t from Dbeg_t (Markov step), Dbeg_{t+1} from D_t (2-D lottery),
+    aggregates A, B, C, CHI and the assets carried in, vs Model/HetPath2D.v; inside the model, assets of either kind carried out of date t equal the aggregate choice of date t"""
+    from fractions import Fraction
+    rng = ctx['rng']
+    m = H.load()
+    blk = m.twoasset_dyadic          # the shipped two-asset household on grids with power-of-two spacings (dyadic lottery weights keep the exact replay cheap)
+    qf = lambda v: (lambda fr: f'(hq {C.zs(fr.numerator)} {fr.denominator}%positive)')(Fraction(float(v)))
+    qarr = lambda A: C.coq_list(np.asarray(A).tolist(), lambda r: C.coq_list(r, qf))
+    cases, exprs, dis = [], [], []
+    for calib in (dict(m.TWO_CALIB, nB=5, nA=6), dict(m.TWO_CALIB, nB=6, nA=7)):          # the second: small grids on which households leave the grids at the top
+        ss = blk.steady_state(calib)
+        if any(np.isnan(ss.internals[blk.name][k]).any() for k in ('a', 'b', 'D')):
+            continue          # degenerate calibration (the household problem has no finite solution on this grid)
+        base = ss.internals[blk.name]
+        gb, ga = base['b_grid'], base['a_grid']
+        nz, nb, na = base['D'].shape
+        for _ in range(reps):
+            T = 3
+            shocks = {k: np.array([rng.choice([0.0, 0.003, -0.002]) for _ in range(T)]) for k in ('rb', 'ra', 'tax') if rng.random() < 0.7} or {'rb': np.full(T, 0.003)}
+            td = blk.impulse_nonlinear(ss, shocks, internals={blk.name: ['a', 'b', 'c', 'chi', 'D', 'Dbeg', 'Pi']})
+            it = td.internals[blk.name]
+            lev = {k: (it[k] + base[k]) for k in ('a', 'b', 'c', 'chi', 'D', 'Dbeg', 'Pi')}
+            fl = lambda X: [X[t].reshape(nz, nb * na) for t in range(T)]
+            exprs.append(f'run_forward2_steps {nz} {nb} {na} {C.coq_list(gb, qf)} {C.coq_list(ga, qf)} {C.coq_list(list(lev["Pi"]), qarr)} {C.coq_list(fl(lev["b"]), qarr)} {C.coq_list(fl(lev["a"]), qarr)} '
+                         f'{C.coq_list(fl(lev["c"]), qarr)} {C.coq_list(fl(lev["chi"]), qarr)} {C.coq_list(fl(lev["Dbeg"]), qarr)} {C.coq_list(fl(lev["D"]), qarr)}')
+            cases.append(dict(calib={k: v for k, v in calib.items() if np.isscalar(v)}, T=T, shocked=sorted(shocks), lev=lev, agg={k: td[k] + ss[k] for k in ('A', 'B', 'C', 'CHI')}, gb=gb, ga=ga, shape=(nz, nb, na),
+                              off_grid=bool((lev['a'] > ga[-1]).any() or (lev['b'] > gb[-1]).any())))
+    vals, logs = C.eval_in_coq('C13', HEADER_FWD2, exprs, chunk=1, tag='fwd2')
+    fr = lambda x: Fraction(int(x[0]), int(x[1]))
+    A2 = lambda Mx: np.array([[float(fr(x)) for x in r] for r in Mx])
+    for c, vm in zip(cases, vals):
+        lev, agg = c.pop('lev'), c.pop('agg')
+        gb, ga, (nz, nb, na) = c.pop('gb'), c.pop('ga'), c.pop('shape')
+        if vm is None:
+            continue
+        bad = []
+        for t in range(c['T']):
+            D_m, Dn_m, ag_m, car_m = vm[t] if len(vm[t]) == 4 else (vm[t][0][0][0], vm[t][0][0][1], vm[t][0][1], vm[t][1])
+            if np.abs(A2(D_m).reshape(nz, nb, na) - lev['D'][t]).max() > 1e-12:
+                bad.append(f'D[{t}] is not Dbeg[{t}] pushed through the Markov matrix')
+            if t + 1 < c['T'] and np.abs(A2(Dn_m).reshape(nz, nb, na) - lev['Dbeg'][t + 1]).max() > 1e-12:
+                bad.append(f'Dbeg[{t + 1}] is not D[{t}] pushed through the two asset policies')
+            for k, x in zip(('B', 'A', 'C', 'CHI'), ag_m):
+                if abs(float(fr(x)) - agg[k][t]) > 1e-10 * max(1, abs(agg[k][t])):
+                    bad.append(f'aggregate {k}[{t}]')
+            cb_in, ca_in, cb_out, ca_out = (fr(x) for x in car_m)
+            Db = lev['Dbeg'][t]
+            if abs(float(cb_in) - float((Db * gb[None, :, None]).sum())) > 1e-10 or abs(float(ca_in) - float((Db * ga[None, None, :]).sum())) > 1e-10:
+                bad.append(f'assets carried into date {t}')
+            if cb_out != fr(ag_m[0]) or ca_out != fr(ag_m[1]):
+                bad.append(f'model: assets carried out of date {t} differ from the aggregate asset choices (contradicts the theorem)')
+        if bad:
+            dis.append(dict(what='forward pass / aggregation of the shipped two-asset household differs from the executable model run on its observed policies', case=dict(c, differing=bad[:6])))
+    for l in logs:
+        dis.append(dict(what='coq evaluation failed', log=l))
+    return cases, exprs, dis
+
+
 def correspondence(ctx):
     """forward pass and aggregation of the shipped one-asset households from their OBSERVED policies: D, Dbeg, aggregates A and C, assets carried in, vs Model/HetPath.v run_forward"""
     from fractions import Fraction
@@ -75,8 +137,10 @@ def correspondence(ctx):
             dis.append(dict(what='forward pass / aggregation of a shipped household differs from the executable model run on its observed policies', case=dict(c, differing=bad[:6])))
     for l in logs:
         dis.append(dict(what='coq evaluation failed', log=l))
-    return dict(evaluations=len(exprs), distinct_nontrivial=len({C.canon([c['block'], c['calib'], c['shocked'], c['T']]) for c in cases}),
-                rule='shipped hh_sim and hh_labor (3 income states, 10-14 asset points, negative borrowing limits, one coarse grid on which savers leave the grid at the top): nonlinear impulses to r, w, rho_e/Div over 3-4 dates; '
+    cases2, exprs2, dis2 = correspondence_2d(ctx, 1 if ctx['tier'] == 'quick' else 6)
+    dis += dis2
+    return dict(evaluations=len(exprs) + len(exprs2), distinct_nontrivial=len({C.canon([c['block'], c['calib'], c['shocked'], c['T']]) for c in cases}) + len({C.canon([c['calib'], c['shocked']]) for c in cases2}),
+                rule='shipped hh_twoasset on grids with power-of-two spacings (5x6 and 6x7 points, 2 income states; households leave the grids at the top): date by date the executable 2-D model (Model/HetPath2D.v) is given the observed Markov matrix, both asset policies, consumption, adjustment costs and distributions and must reproduce D_t, Dbeg_{t+1} (1e-12), aggregates A, B, C, CHI and the assets of each kind carried in (1e-10); inside the model the assets carried out of date t equal A_t and B_t exactly; shipped hh_sim and hh_labor (3 income states, 10-14 asset points, negative borrowing limits, one coarse grid on which savers leave the grid at the top): nonlinear impulses to r, w, rho_e/Div over 3-4 dates; '
                      'date by date the executable model is given the observed Markov matrix, asset policy, consumption and distributions and must reproduce D_t from Dbeg_t and Dbeg_{t+1} from D_t (1e-12), the aggregates A_t, C_t '
                      'and the assets carried into each date (1e-10); inside the model, assets carried out of date t equal A_t exactly (the theorem)',
                 samples=[{k: v for k, v in cases[0].items() if k in ('block', 'calib', 'T', 'shocked', 'off_grid')}] if cases else [], disagreements=dis,
